@@ -29,8 +29,8 @@ import time
 
 import numpy as np
 
-LEVELS = {'C': 'CRITICAL', 'W': 'WARNING', 'I': 'INFO', 'D': 'DEBUG'}
-NUM = {'C': 50, 'W': 30, 'I': 20, 'D': 10}
+LEVELS = {'C': 'CRITICAL', 'E': 'ERROR', 'W': 'WARNING', 'I': 'INFO', 'D': 'DEBUG'}
+NUM = {'C': 50, 'E': 40, 'W': 30, 'I': 20, 'D': 10}
 VERB = ['N', 'C', 'W', 'I', 'D']
 ALPHABET = (['su:' + l for l in VERB] + ['sl:' + l for l in 'CWID'] + ['dis', 'en'] +
             ['c:%s:r' % v for v in VERB] + ['c:%s:x' % v for v in VERB])
